@@ -228,6 +228,12 @@ static void reconstruct_units(const Grp &G, bool T) {
 }
 
 // ---- forked signing runs -----------------------------------------------------------------------------------------
+// the k-th (0-based) occurrence of "key<value>\n" in a log
+static std::string nth_logged(const std::string &log, const std::string &key, int k) {
+	size_t pos = 0; for (int c = 0; ; c++) { pos = log.find(key, pos); if (pos == log.npos) return ""; if (c == k) break; pos += key.size(); }
+	size_t e = log.find('\n', pos); return log.substr(pos + key.size(), e == log.npos ? log.npos : e - pos - key.size());
+}
+static std::string b62hex(const std::string &s) { if (s.empty()) return ""; mpz_t v; mpz_init(v); std::string r; if (mpz_set_str(v, s.c_str(), TMCG_MPZ_IO_BASE) == 0) r = hx(v); mpz_clear(v); return r; }
 static std::string last_logged(const std::string &log, const std::string &key) {
 	size_t pos = log.rfind(key); if (pos == log.npos) return "";
 	size_t e = log.find('\n', pos); return log.substr(pos + key.size(), e == log.npos ? log.npos : e - pos - key.size());
@@ -340,6 +346,11 @@ static bool dss_run_once(std::vector<std::pair<std::string, std::string> > &pend
 		bool v = false, v2 = false; try { v = ok && dss.Verify(m, r, s); v2 = ok2 && dss.Verify(m, r2, s2); } catch (...) {}
 		res << "gen=" << g << "\n" << "ret=" << ok << "\n" << "exc=" << exc << "\n" << "r=" << hx(r) << "\n" << "s=" << hx(s) << "\n" << "y=" << hx(dss.y) << "\n" << "verify=" << v << "\n";
 		res << "x=" << hx(dss.x_i) << "\n";
+		// the algebra of the first signing run as this party logged it: its products v_i (steps 1d, 2d), the signers, mu, g^a
+		{ const std::string L = e2.str();
+		  res << "v1=" << b62hex(nth_logged(L, ": v_i = ", 0)) << "\n" << "v2=" << b62hex(nth_logged(L, ": v_i = ", 1)) << "\n" << "mu=" << b62hex(nth_logged(L, ": mu = ", 0)) << "\n";
+		  res << "sg1=" << nth_logged(L, "signers (index from DKG) in Step 1f: ", 0) << "\n" << "sg2=" << nth_logged(L, "signers (index from DKG) in Step 2f: ", 0) << "\n";
+		  res << "ga=" << b62hex(nth_logged(L, "DKG(a_dkg): P_" + std::to_string(i) + ": y = ", 0)) << "\n"; }
 		res << "qualx="; if (dss.dkg && dss.dkg->x_rvss) for (size_t k = 0; k < dss.dkg->x_rvss->QUAL.size(); k++) res << (k ? "," : "") << dss.dkg->x_rvss->QUAL[k]; res << "\n";
 		res << "qual="; for (size_t k = 0; k < dss.QUAL.size(); k++) res << (k ? "," : "") << dss.QUAL[k]; res << "\n";
 		res << "refresh=" << rf << "\n" << "ret2=" << ok2 << "\n" << "r2=" << hx(r2) << "\n" << "s2=" << hx(s2) << "\n" << "verify2=" << v2 << "\n";
@@ -390,6 +401,21 @@ static bool dss_run_once(std::vector<std::pair<std::string, std::string> > &pend
 			if (key_mismatch) { mpz_clear(r); mpz_clear(s); mpz_clear(y); continue; }
 			if (!dsa_textbook(G, y, m, r, s)) propfail("dss-textbook", std::string("the output (r,s)=(") + r0 + "," + s0 + ")" + (round ? " after refresh" : "") + " is not a valid DSA signature under y=" + y0 + ": " + ctx);
 			RecS(recs, "dss_verify").z(G.p).z(G.q).z(G.g).z(G.h).z(y).z(m).z(r).z(s).t("accept");
+			if (round == 0) {
+				// the signing algebra: mu and s as Lagrange values of the signers' own products, r from g^a and mu
+				size_t h0 = 0; while (h0 < n && faulty[h0]) h0++;
+				for (int ph = 1; ph <= 2; ph++) {
+					std::string sg = res_get(FR.text[h0], ph == 1 ? "sg1" : "sg2"), pts; bool ok = !sg.empty();
+					std::istringstream is(sg); std::string tok;
+					while (ok && is >> tok) { if (tok.compare(0, 2, "P_")) { ok = false; break; } size_t j = strtoul(tok.c_str() + 2, 0, 10);
+						std::string vj = j < n ? res_get(FR.text[j], ph == 1 ? "v1" : "v2") : ""; if (j >= n || faulty[j] || vj.empty()) { ok = false; break; }
+						pts += (pts.empty() ? "" : ",") + hx((unsigned long)(j + 1)) + ":" + vj; }
+					std::string out = ph == 1 ? res_get(FR.text[h0], "mu") : hx(s);
+					if (ok && !pts.empty() && !out.empty()) RecS(recs, "dss_lincomb").z(G.q).t(pts).t(out);
+				}
+				std::string ga = res_get(FR.text[h0], "ga"), mu = res_get(FR.text[h0], "mu");
+				if (!ga.empty() && !mu.empty()) RecS(recs, "dss_r").z(G.p).z(G.q).z(G.g).z(G.h).t(ga).t(mu).z(r);
+			}
 			mpz_clear(r); mpz_clear(s); mpz_clear(y);
 		}
 	}
